@@ -90,6 +90,18 @@ CHECKS["C18"] = dict(
          "values for the two-path comparison; real-`quantities` inputs outside",
     technique=Z + " with uninterpreted sqrt/exp and argument matching", ref="DESIGN.md section 5 C18")
 
+CHECKS["C16"] = dict(
+    engine="Z", category="other",
+    text="bounded symbolic verification: arrhenius/eyring equations and parameter sets (incl. round trip from a known rate constant and "
+         "as_RateExpr inside Reaction.rate), the rate-expression classes, temperature polynomials and piecewise definitions are executed "
+         "on z3 reals with exp/sin uninterpreted - unitless, with free-positive-real unit symbols and with symbolic constants objects - "
+         "and z3 proves each equal to its defining formula for all arguments; every operator tree up to depth 2 (3 in thorough) built "
+         "with the real Expr overloads evaluates to the same arithmetic on its operands; named overrides replace exactly their argument",
+    note="backend independence = the result is one term over backend.exp/... for any backend providing them; units independence = "
+         "invariance under all positive unit scales (idealised stub); hard-coded R and kB/h compared with CODATA (2e-6); fitting routines "
+         "(numpy/scipy) not applicable; real-`quantities` evaluation outside",
+    technique=Z + " with uninterpreted transcendental functions and argument matching", ref="DESIGN.md section 5 C16")
+
 NA = {
     "C09": "property is about float conversion factors produced inside the 'quantities' package and numpy array helpers; no symbolic "
            "value survives to_unitless (float(result)), and symbolic magnitudes alone would only re-prove linearity (DESIGN.md section 6)",
